@@ -145,3 +145,62 @@ Definition report_pairs (w : writer) : list (N * diag) :=
   | WJson b | WText b => flat_map (fun b => map (pair (fst b)) (snd b)) b
   | WSarif r => r
   end.
+
+(** * the workers and the bounded channel (crates/emmylua_check/src/lib.rs, [run_check])
+    One task per file computes [diagnose_file] and hands [(file, result)] to a
+    [tokio::sync::mpsc::channel(capacity)].  HOW it hands it over is read from the source on
+    every run ([Gen.C36_send]): an awaited [send] waits for room (back-pressure), a [try_send]
+    (or a send future that is not awaited) loses the message when the channel is full.
+    A schedule is any interleaving of "worker of file f reaches its send" and "the report loop
+    receives one message". *)
+From EV Require Import Gen.C36_send.
+
+Inductive event := Produce (f : N) | Consume.
+
+Record chan := {
+  ch_queue : list message;       (* buffered, at most [capacity] *)
+  ch_blocked : list message;     (* workers waiting in [send().await] for room *)
+  ch_delivered : list message    (* what [receiver.recv()] returned so far, in order *)
+}.
+
+Definition chan0 : chan := {| ch_queue := []; ch_blocked := []; ch_delivered := [] |}.
+
+(** [None]: unbounded channel *)
+Definition has_room (cap : option N) (q : list message) : bool :=
+  match cap with None => true | Some c => N.of_nat (length q) <? c end.
+
+Definition chan_step (awaited : bool) (cap : option N) (D : N -> option (list diag)) (c : chan) (e : event) : chan :=
+  match e with
+  | Produce f =>
+      let m := (f, D f) in
+      if has_room cap (ch_queue c) then
+        {| ch_queue := ch_queue c ++ [m]; ch_blocked := ch_blocked c; ch_delivered := ch_delivered c |}
+      else if awaited then
+        {| ch_queue := ch_queue c; ch_blocked := ch_blocked c ++ [m]; ch_delivered := ch_delivered c |}
+      else c                                      (* try_send on a full channel: the result is discarded *)
+  | Consume =>
+      match ch_queue c with
+      | [] => c                                   (* recv waits *)
+      | m :: r =>
+          match ch_blocked c with
+          | [] => {| ch_queue := r; ch_blocked := []; ch_delivered := ch_delivered c ++ [m] |}
+          | p :: ps => {| ch_queue := r ++ [p]; ch_blocked := ps; ch_delivered := ch_delivered c ++ [m] |}
+          end
+      end
+  end.
+
+Definition chan_run (awaited : bool) (cap : option N) (D : N -> option (list diag)) (sched : list event) : chan :=
+  fold_left (chan_step awaited cap D) sched chan0.
+
+(** the files whose worker reached its send, in schedule order *)
+Definition produced (sched : list event) : list N :=
+  flat_map (fun e => match e with Produce f => [f] | Consume => [] end) sched.
+
+(** the loop received until nothing was buffered or waiting (it stops at [count == total] or on
+    the closed, empty channel; the channel closes when every worker is done with its send) *)
+Definition drained (c : chan) : Prop := ch_queue c = [] /\ ch_blocked c = [].
+
+(** the code as it is today *)
+Definition capacity : option N := if channel_capacity =? 0 then None else Some channel_capacity.
+Definition arrivals (D : N -> option (list diag)) (sched : list event) : list message :=
+  ch_delivered (chan_run worker_send_awaited capacity D sched).
